@@ -39,11 +39,53 @@ def apply_edits(edits):
     return out
 
 
+def overrides_from_patch(patch_path):
+    """Apply a unified diff to a scratch copy of the package (outside /repo and /verif) and return {module: source}."""
+    import shutil, subprocess, tempfile
+    tmp = tempfile.mkdtemp(prefix="wsverif-seed-")
+    try:
+        shutil.copytree(os.path.join(REPO_ROOT, "websocket"), os.path.join(tmp, "websocket"), ignore=shutil.ignore_patterns("tests", "__pycache__"))
+        r = subprocess.run(["patch", "-p1", "-s", "-i", patch_path], cwd=tmp, capture_output=True, text=True)
+        if r.returncode != 0:
+            raise ValueError(f"patch does not apply: {r.stdout[-200:]} {r.stderr[-200:]}")
+        out = {}
+        for fn in os.listdir(os.path.join(tmp, "websocket")):
+            if fn.endswith(".py"):
+                a = open(os.path.join(tmp, "websocket", fn), encoding="utf-8").read()
+                b = open(os.path.join(REPO_ROOT, "websocket", fn), encoding="utf-8").read()
+                if a != b:
+                    out[fn[:-3]] = a
+        return out
+    finally:
+        shutil.rmtree(tmp, ignore_errors=True)
+
+
+def seeded_mutants():
+    """The sub-agents' changes kept under /verif/seeded/<id>/ as regression cases: the checks recorded as catching
+    them (meta.json evaluation) must still do so."""
+    base = os.path.join(os.path.dirname(os.path.dirname(os.path.abspath(__file__))), "seeded")
+    out = []
+    if not os.path.isdir(base):
+        return out
+    for d in sorted(os.listdir(base)):
+        mp = os.path.join(base, d, "meta.json")
+        pp = os.path.join(base, d, "patch.diff")
+        if not (os.path.exists(mp) and os.path.exists(pp)):
+            continue
+        meta = json.load(open(mp))
+        ev = meta.get("evaluation", {})
+        props = [p for p, r in ev.get("checks_run", {}).items() if r.get("exit") == 1]
+        if not props:
+            continue
+        out.append({"id": f"seeded-{d}", "props": props[:1], "patch": pp, "rules": None, "expect": "violation"})
+    return out
+
+
 def run_one(m):
     from .harness import run_check
     t0 = time.time()
     try:
-        ov = apply_edits(m["edits"])
+        ov = overrides_from_patch(m["patch"]) if "patch" in m else apply_edits(m["edits"])
     except ValueError as e:
         return {"id": m["id"], "status": "STALE", "detail": str(e), "wall": 0}
     res = {}
@@ -72,7 +114,7 @@ def run_one(m):
 
 
 def selftest(jobs=16, only=None) -> int:
-    muts = _load()
+    muts = _load() + seeded_mutants()
     if only:
         muts = [m for m in muts if only in m["id"] or only in m["props"]]
     t0 = time.time()
